@@ -83,6 +83,40 @@ def check_text(text: str) -> tuple[str, list[tuple[str, str]], int]:
     return 'accepted', findings, n_sub
 
 
+def check_text_big(text: str) -> tuple[str, list[tuple[str, str]], int]:
+    """Round trip of a large text (sub-model slices sampled at the directive level only)."""
+    findings: list[tuple[str, str]] = []
+    toks: list = []
+    for ac in (True, False):
+        try:
+            f = tree.parse(text, auto_claim_comments=ac)
+        except Exception:  # noqa: BLE001
+            return 'rejected', [], 0
+        out = tree.text_of(f)
+        if out != text:
+            k = next((i for i, (a, b) in enumerate(zip(out, text)) if a != b), min(len(out), len(text)))
+            findings.append(('print', f'auto_claim={ac}: printed text differs from the input at offset {k} '
+                                      f'(lengths {len(out)} / {len(text)})'))
+            continue
+        if tree.store_text(f.token_store) != text:
+            findings.append(('store', f'auto_claim={ac}: concatenation of store tokens differs from the input'))
+            continue
+        toks = list(f.token_store)
+        prefix = {}
+        pos = 0
+        for t in toks:
+            prefix[id(t)] = pos
+            pos += len(t.raw_text)
+        ds = list(f.raw_directives_with_comments)
+        for m in ds[::max(1, len(ds) // 200)]:
+            a = prefix[id(m.first_token)]
+            b = prefix[id(m.last_token)] + len(m.last_token.raw_text)
+            if tree.text_of(m) != text[a:b]:
+                findings.append(('slice', f'auto_claim={ac}: a directive of a large file does not print its slice'))
+                break
+    return 'accepted', findings, len(toks)
+
+
 _TARGETS = {c.__name__ for c in models.TREE_MODELS.values()}
 
 
@@ -114,13 +148,13 @@ def main(prop: str, tier: str) -> int:
         runs = [
             dict(name='N4-plain', kw=dict(max_lines=4), flavors=[base_fl]),
             dict(name='N3-devs', kw=dict(max_lines=3, devs=('none', 'tab', 'sp1', 'sp8', 'trail', 'inline', 'trailinline'),
-                                         eols=('lf', 'crlf'), finals=(True, False)), flavors=[base_fl + 1, base_fl + 5]),
+                                         eols=('lf', 'crlf', 'crcrlf'), finals=(True, False)), flavors=[base_fl + 1, base_fl + 5]),
         ]
     else:
         runs = [
             dict(name='N5-plain', kw=dict(max_lines=5), flavors=[base_fl, base_fl + 7]),
             dict(name='N4-devs', kw=dict(max_lines=4, devs=('none', 'tab', 'sp1', 'sp8', 'trail', 'inline', 'trailinline'),
-                                         eols=('lf', 'crlf'), finals=(True, False)), flavors=[base_fl + 1]),
+                                         eols=('lf', 'crlf', 'crcrlf'), finals=(True, False)), flavors=[base_fl + 1]),
             dict(name='N3-all-flavors', kw=dict(max_lines=3, eols=('lf', 'crlf'), finals=(True, False)),
                  flavors=list(range(12))),
         ]
@@ -149,12 +183,34 @@ def main(prop: str, tier: str) -> int:
                     rep.violation(f'C01/{kind}' if kind.startswith('target-outer') else
                                   f'C01/{kind}/{"-".join(d["lines"][:6])}/{d["dev"]}/{d["eol"]}',
                                   {'what': msg, 'text': text, 'layout': d})
+    # large documents: concatenations of accepted layouts, sized around the token store's block
+    # boundaries (1000 tokens) and well beyond (tens of thousands of tokens)
+    big = []
+    pool_docs = [d for d in docs if d['accept'] and d['lines'] and d['final'] and d['lines'][-1] in ('blank', 'dir', 'opt', 'head', 'com')] if docs else []
+    if pool_docs:
+        import random
+        rng = random.Random(seed + 3)
+        for target in ([900, 2100, 40000] if tier == 'quick' else [900, 1100, 2100, 4500, 20000, 70000, 150000]):
+            parts = []
+            ntok = 0
+            while ntok < target:
+                d = rng.choice(pool_docs)
+                t = doclib.render(d, rng.randrange(12))
+                parts.append(t)
+                ntok += max(1, len(t) // 3)
+            text = ''.join(parts)
+            st, findings, n_sub = check_text_big(text)
+            big.append({'tokens': n_sub, 'chars': len(text), 'status': st})
+            if st == 'accepted':
+                acc += 1
+            for kind, msg in findings:
+                rep.violation(f'C01/big/{kind}', {'what': msg, 'text_head': text[:300], 'chars': len(text)})
     pl = postlex_replay(tier, rep)
     rep.cov.update({
         'states': states + pl.get('states', 0), 'transitions': transitions + pl.get('transitions', 0),
         'traces_validated_against_impl': acc + pl.get('replayed', 0),
         'accepted_texts': acc, 'rejected_texts_skipped': rej, 'sub_model_slices_checked': subs,
-        'layout_acceptance_drift': drift, 'runs': info, 'postlex': pl,
+        'layout_acceptance_drift': drift, 'runs': info, 'large_documents': big, 'postlex': pl,
         'samples': samples, 'exhaustive': True,
         'rule': 'every Layout.tla state up to the listed number of lines is rendered and parsed in both attribution modes',
     })
